@@ -166,6 +166,8 @@ func checkDumpLoad(res *Result, d *Driver, r *rand.Rand, name string, src []byte
 			if impl != model {
 				res.Fail(Failure{Kind: "model-diff", Op: trunc(op, 2000), Input: trunc(string(src), 2000), Impl: trunc(impl, 2000), Model: trunc(model, 2000),
 					Note: "LOAD: the parts recovered from a real dump differ between implementation and model"})
+			} else {
+				checkLoadPieces(res, d, r, unhx(dump), impl, "dump of "+trunc(string(src), 300))
 			}
 		}
 	default:
@@ -188,6 +190,116 @@ func bitlen(n int) int {
 		n >>= 1
 	}
 	return k
+}
+
+// pieceReader hands over a fixed list of pieces, one per Read (or the first len(p) bytes of the
+// piece in front, the remainder staying in front); an empty piece is a read of zero bytes with
+// a nil error; after the last piece every Read is (0, io.EOF).  This is the underlying reader
+// of the Lean model of Load over bufio.Reader (Model/Bufio.lean, op LOADC).
+type pieceReader struct{ pieces [][]byte }
+
+func (pr *pieceReader) Read(p []byte) (int, error) {
+	if len(pr.pieces) == 0 {
+		return 0, io.EOF
+	}
+	c := pr.pieces[0]
+	n := copy(p, c)
+	if n < len(c) {
+		pr.pieces[0] = c[n:]
+	} else {
+		pr.pieces = pr.pieces[1:]
+	}
+	return n, nil
+}
+
+// cutPieces cuts bs into pieces: sizes drawn from a mix (single bytes, a few bytes, around the
+// 4096-byte buffer, large), optionally with empty pieces in between (never 100 in a row).
+func cutPieces(r *rand.Rand, bs []byte, empties bool) [][]byte {
+	var out [][]byte
+	mode := r.Intn(5)
+	for len(bs) > 0 {
+		var n int
+		switch mode {
+		case 0:
+			n = 1
+		case 1:
+			n = 1 + r.Intn(9)
+		case 2:
+			n = []int{4095, 4096, 4097, 8192, 1, 2, 9, 4087, 4088}[r.Intn(9)]
+		case 3:
+			n = 1 + r.Intn(len(bs))
+		default:
+			n = []int{1, 2, 3, 8, 9, 10, 100, 4096, 5000}[r.Intn(9)]
+		}
+		if n > len(bs) {
+			n = len(bs)
+		}
+		if empties && r.Intn(4) == 0 {
+			for k := r.Intn(3); k >= 0; k-- {
+				out = append(out, []byte{})
+			}
+		}
+		out = append(out, append([]byte(nil), bs[:n]...))
+		bs = bs[n:]
+	}
+	if empties && r.Intn(2) == 0 {
+		out = append(out, []byte{})
+	}
+	return out
+}
+
+func copyPieces(ps [][]byte) [][]byte {
+	out := make([][]byte, len(ps))
+	copy(out, ps)
+	return out
+}
+
+// implLoadPieces: LoadProg from a pieceReader.
+func implLoadPieces(ps [][]byte) string {
+	return guarded(opTimeout, func() string {
+		prog, err := bcl.LoadProg(&pieceReader{copyPieces(ps)}, "x", bcl.OptOutput(io.Discard), bcl.OptLogger(io.Discard))
+		if err != nil {
+			return "err " + loadErrClass(err)
+		}
+		return "ok " + fmtParts(prog)
+	})
+}
+
+func piecesArg(ps [][]byte) string {
+	if len(ps) == 0 {
+		return "."
+	}
+	parts := make([]string, len(ps))
+	for i, c := range ps {
+		if len(c) == 0 {
+			parts[i] = "-"
+		} else {
+			parts[i] = hx(c)
+		}
+	}
+	return strings.Join(parts, ",")
+}
+
+// checkLoadPieces compares Load over the buffered reader, model against implementation, on the
+// same list of pieces (op LOADC), and both against the whole-input answer.
+func checkLoadPieces(res *Result, d *Driver, r *rand.Rand, bs []byte, whole string, what string) {
+	for k := 0; k < 2; k++ {
+		ps := cutPieces(r, bs, k == 1)
+		impl := implLoadPieces(ps)
+		model := ask(d, "LOADC "+piecesArg(ps))
+		res.Eval(1)
+		res.Count("pieces.model-vs-impl", 1)
+		if impl != model {
+			res.Fail(Failure{Kind: "model-diff", Op: trunc("LOADC "+piecesArg(ps), 2000), Input: what, Impl: trunc(impl, 1000), Model: trunc(model, 1000),
+				Note: "LOADC: Load through the buffered reader, piece by piece, differs between implementation and model"})
+			return
+		}
+		if impl != whole {
+			res.Fail(Failure{Kind: "oracle", Input: what + " pieces=" + trunc(piecesArg(ps), 2000), Impl: trunc(impl, 1000), Expected: trunc(whole, 1000),
+				Note: "Load depends on how the reader hands the bytes over"})
+			return
+		}
+	}
 }
 
 type randReader struct {
@@ -268,6 +380,8 @@ func streamTruncate(ctx *Ctx) *Result {
 		model := ask(d, "LOAD "+hx(bs))
 		if impl != model {
 			res.Fail(Failure{Kind: "model-diff", Op: "LOAD " + hx(bs), Input: what, Impl: trunc(impl, 1000), Model: trunc(model, 1000), Note: "LOAD of a damaged dump"})
+		} else if len(bs)%7 == 3 || len(bs) < 40 {
+			checkLoadPieces(res, d, rand.New(rand.NewSource(int64(len(bs))*7919+int64(len(what)))), bs, impl, what)
 		}
 	}
 	nprogs := ctx.N(120)
